@@ -46,7 +46,10 @@ let run_case (c : Sexp.t) : string * Sexp.t * Sexp.t option =
            | None ->
              (match Ops_goals.run_case fuel c with
               | Some r -> r
-              | None -> bad ("unknown case: " ^ Sexp.to_string c)))))
+              | None ->
+                (match Ops_parse.run_case fuel c with
+                 | Some r -> r
+                 | None -> bad ("unknown case: " ^ Sexp.to_string c))))))
 
 let () =
   let ic = if Array.length Sys.argv > 1 then open_in Sys.argv.(1) else stdin in
